@@ -173,6 +173,28 @@ def run_unit(i, tier, checks):
                         v["case"]["after_twin"] = tw
                         res.add(v)
             res.stats["twin_sequences"] += 1
+            # one schema OBJECT whose content the caller edits in place between two calls: each call is judged by the
+            # content it is given (nothing may be remembered per object identity)
+            import copy as _copy
+
+            if isinstance(raw, (dict, list)) and type(raw) is type(tw):
+                obj = _copy.deepcopy(raw)
+                c0 = rt.Case(raw, obj, node, defs, "raw-same-object")
+                for d, cost in alphabet.data_for(node, defs, 0):
+                    res.evals += 1
+                    for v in rt.evaluate(fa, c0, d, checks):
+                        res.add(v)
+                if isinstance(obj, dict):
+                    obj.clear()
+                    obj.update(_copy.deepcopy(tw))
+                else:
+                    obj[:] = _copy.deepcopy(tw)
+                c1 = rt.Case(tw, obj, tcases[0].node, tcases[0].defs, "raw-same-object-edited-in-place")
+                for d, cost in tdata[:30]:
+                    res.evals += 1
+                    for v in rt.evaluate(fa, c1, d, checks):
+                        v["sig"] = "edited-in-place:" + v["sig"]
+                        res.add(v)
     res.distinct = len(seen)
     res.stats["data"] += len(seen)
     if data:
